@@ -16,7 +16,8 @@ FINISH = dict(level="proof", rule=(
 HDR = "From GS Require Import Tracer.Mem Tracer.EvalMem.\nOpen Scope N_scope.\n"
 SCEN = ["unterminated", "exact4096", "unaligned_long", "cross_unmapped", "cross_ok", "null_ptr", "kernel_ptr", "noncanonical_ptr",
         "unmapped_page", "garbage_dirfd", "huge_dirfd", "unknown_syscall", "negative_syscall", "x32_syscall", "openat2_bad_how",
-        "openat2_how_cross", "openat2_size_8", "openat2_size_0", "openat2_size_23", "openat2_size_neg", "openat2_size_huge", "openat2_size_4097", "execve_bad", "symlink_nest", "sysno_bit63", "sysno_upper_ones", "sysno_upper_garbage"]
+        "openat2_how_cross", "openat2_size_8", "openat2_size_0", "openat2_size_23", "openat2_size_neg", "openat2_size_huge", "openat2_size_4097", "execve_bad", "symlink_nest", "sysno_bit63", "sysno_upper_ones", "sysno_upper_garbage",
+        "open_flags_3", "open_flags_ffffffff", "open_flags_deadbeef00000003", "open_flags_7fffffffffffffff", "open_flags_243", "open_flags_80003"]
 RACES = ["threads_exit", "clone_exit", "fork_kill"]
 
 
